@@ -118,6 +118,14 @@ class Engine:
         self.obligations.append(Obligation(f"{self.label}/{name}#{len(self.obligations)}", st.pc + self.round_axioms,
                                            goal, prop or self.prop, meta))
 
+    def qoblige(self, name, st, goals, **meta):
+        """prove forall-goals: skolemise each at a fresh constant, instantiate the assumed forall-facts of the path there"""
+        for gi, g in enumerate(goals):
+            k0 = self.sym_int("sk")
+            s2 = st.fork()
+            s2.pc += [to_z3(q(k0)) for q in st.ghost.get("Q", [])]
+            self.oblige(f"{name}/forall{gi}", s2, g(k0), **meta)
+
     def feasible(self, pc):
         self.stats["feasible_calls"] += 1
         s = z3.Solver()
@@ -587,7 +595,11 @@ class Engine:
             return [(Opaque("binop"), s)]
         # strings / terminal strings
         if isinstance(a, (str, TS)) or isinstance(b, (str, TS)):
-            return [(tstr.str_binop(op, a, b), s)]
+            try:
+                return [(tstr.str_binop(op, a, b), s)]
+            except tstr.PyRaise as ex:
+                self.raise_(ex.exc, s)
+                return []
         if isinstance(a, bytes) or isinstance(b, bytes):
             if not is_sym(a) and not is_sym(b):
                 return [(self.py_binop(op, a, b), s)]
@@ -919,8 +931,10 @@ class Engine:
             def elem(k, cur, src=src):
                 s2 = self.fork(cur)
                 s2.frames.append({})
+                n0 = len(s2.pc)
                 self.assign(gen.target, src.elem(k, cur), s2)
-                v, _ = self.ev1(elt, s2)
+                v, s3 = self.ev1(elt, s2)
+                cur.pc += s3.pc[n0:]          # facts learnt while evaluating the element (assumed contracts of reads) stay valid
                 return v
             return SeqV(src.length, elem, "genexp")
         items = self.iter_concrete(src, s)
@@ -1528,11 +1542,15 @@ class Engine:
         outs = []
         N = to_z3(seq.length)
         self.oblige(f"loop{lid}/inv-entry", s0, spec.inv(s0, z3.IntVal(0), N), kind="invariant")
+        if spec.qinv:
+            self.qoblige(f"loop{lid}/inv-entry", s0, spec.qinv(s0, z3.IntVal(0), N), kind="invariant")
         h = self.fork(s0)
         k = self.sym_int(f"k{lid}")
         spec.havoc(self, h, f"L{lid}")
         it = self.fork(h)
         it.pc += [k >= 0, k < N, to_z3(spec.inv(it, k, N))]
+        if spec.qinv:
+            it.ghost["Q"] = list(it.ghost.get("Q", [])) + spec.qinv(it, k, N)
         if not self.feasible(it.pc):
             it = None
         if it is not None:
@@ -1540,6 +1558,8 @@ class Engine:
             for kind, val, s2 in self.run(n.body, it):
                 if kind in ("normal", "continue"):
                     self.oblige(f"loop{lid}/inv-preserved", s2, spec.inv(s2, k + 1, N), kind="invariant")
+                    if spec.qinv:
+                        self.qoblige(f"loop{lid}/inv-preserved", s2, spec.qinv(s2, k + 1, N), kind="invariant")
                 elif kind == "break":
                     if spec.on_break is None:
                         raise Unsupported("break in a symbolic for loop needs on_break")
@@ -1548,6 +1568,8 @@ class Engine:
                     outs.append((kind, val, s2))
         exit_ = self.fork(h)
         exit_.pc.append(to_z3(spec.inv(exit_, N, N)))
+        if spec.qinv:
+            exit_.ghost["Q"] = list(exit_.ghost.get("Q", [])) + spec.qinv(exit_, N, N)
         if self.feasible(exit_.pc):
             if n.orelse:
                 outs += self.run(n.orelse, exit_)
@@ -1620,8 +1642,11 @@ class Engine:
 class LoopSpec:
     """inv(state[, k, N]) -> bool term; havoc(engine, state, tag) mutates state in place"""
 
-    def __init__(self, inv, havoc, on_break=None, iterator=False):
-        self.inv, self.havoc, self.on_break, self.iterator = inv, havoc, on_break, iterator
+    def __init__(self, inv, havoc, on_break=None, iterator=False, qinv=None):
+        """qinv(state[, k, N]) -> list of python callables c -> z3 Bool: universally quantified conjuncts of the invariant
+        (forall c. f(c)).  They are never handed to the solver as quantifiers: a goal is skolemised at a fresh constant and
+        every assumed fact is instantiated at that constant (complete for cell-wise array invariants)."""
+        self.inv, self.havoc, self.on_break, self.iterator, self.qinv = inv, havoc, on_break, iterator, qinv
 
 
 def _as_load(t):
